@@ -357,6 +357,71 @@ theorem copies_disjoint {w : World} (hw : Wf w) {op : Op} (hc : IsCopyOp op) {r 
     have := hw.lats s hs
     omega
 
+/-- a plan that builds a new structure from copies only: next handle, fresh atoms, the lattice asked for -/
+theorem newCopy_fresh (w : World) (L : LatSrc) (old : List Nat) :
+    let p : Plan Nat := { tgt := .new L, pre := none, inc := old, flags := allTrue old, edit := .replace }
+    (w.execPlan p).2 = .ok (.stru w.strus.length) ∧
+    (∀ a ∈ (w.execPlan p).1.atomsOf w.strus.length, w.nextA ≤ a) ∧
+    (w.execPlan p).1.latOf w.strus.length = World.latSrcOf w L := by
+  intro p
+  cases L with
+  | fresh =>
+    obtain ⟨g1, g2, g3, _⟩ := World.execPlan_new_fresh w p rfl rfl rfl
+    exact ⟨g1, g2, g3⟩
+  | ofStru h' =>
+    obtain ⟨e1, _, _, _, e5, e6⟩ := World.prep_strus w p
+    obtain ⟨_, _, g3, _, _, g6⟩ := World.w1_frame w p
+    rw [World.execPlan_eq]
+    simp only [p, Edit.apply, World.worldFinish]
+    have hh : (w.prep p).2.1 = w.strus.length := by rw [e5]; simp [World.hT, p]
+    have hstr : (w.prep p).1.strus = w.strus ++ [⟨[], w.latOf h', true⟩] := by rw [e1, g6]
+    obtain ⟨a1, a2⟩ := World.atomsOf_setAtoms_push (w.prep p).1 w.strus (w.latOf h') (w.prep p).2.2 hstr
+    simp only [p] at hh a1 a2 e6
+    rw [hh]
+    refine ⟨rfl, ?_, a2⟩
+    rw [a1, e6]
+    intro a ha
+    have := World.copySome_allTrue_fresh _ old a ha
+    have g3' := g3
+    simp only [p] at g3'
+    omega
+
+/-- the lattice object a constructor call asks for -/
+def ctorLat (w : World) : Option LatSrc → Nat
+  | some (.ofStru h') => w.latOf h'
+  | _ => w.nextL
+
+/-- copy construction `Structure(s)`, `Structure(s, lattice=L)`, `PDFFitStructure(s, lattice=t.lattice)`,
+`Structure(s, title=…)`: the result is the next handle, all its atoms are fresh copies, and its lattice
+is the one asked for — a new lattice object unless the caller passed the lattice of a live structure -/
+theorem ctor_copies_fresh {w : World} {h : Nat} {lat : Option LatSrc} {r : Nat}
+    (hok : (w.stepFull (.ctor (some (.stru h)) lat)).2 = .ok (.stru r)) :
+    r = w.strus.length ∧ (∀ a ∈ (w.stepFull (.ctor (some (.stru h)) lat)).1.atomsOf r, w.nextA ≤ a) ∧
+    (w.stepFull (.ctor (some (.stru h)) lat)).1.latOf r = ctorLat w lat := by
+  rcases h1 : w.view.atoms h with e | old
+  · simp [World.stepFull, planG, View.iter, h1] at hok
+  · rcases h2 : checkLat w.view lat with e | L
+    · simp [World.stepFull, planG, View.iter, h1, h2] at hok
+    · have hp : planG w.view (.ctor (some (.stru h)) lat) =
+          .ok (.plan { tgt := .new L, pre := none, inc := old, flags := allTrue old, edit := .replace }) := by
+        simp only [planG, View.iter, h1, h2, copyFlags, if_true]
+      have hL : World.latSrcOf w L = ctorLat w lat := by
+        cases lat with
+        | none => simp only [checkLat, Except.ok.injEq] at h2; subst h2; rfl
+        | some l =>
+          cases l with
+          | fresh => simp only [checkLat, Except.ok.injEq] at h2; subst h2; rfl
+          | ofStru h' =>
+            simp only [checkLat] at h2
+            rcases h3 : w.view.atoms h' with e | l
+            · simp [h3] at h2
+            · simp only [h3, Except.ok.injEq] at h2; subst h2; rfl
+      simp only [World.stepFull, hp, World.exec] at hok ⊢
+      obtain ⟨g1, g2, g3⟩ := newCopy_fresh w L old
+      rw [g1] at hok
+      cases hok
+      exact ⟨rfl, g2, by rw [g3, hL]⟩
+
 /-- operations documented to insert copies of the given atoms into structure `h` -/
 inductive CopiesInto : Op → Nat → Prop
   | appendD (h : Nat) (a : ARef) : CopiesInto (.append h a .dflt) h
@@ -568,7 +633,9 @@ def goodHistory : List Op :=
    .getitem 0 (.slice ⟨some 1, none, none⟩), .sub 0 (.stru 2), .extend 1 (.list [.pool 0]) .yes,
    .isub 0 (.tolist 2), .remove 0 (.mem 0 0), .setslice 1 ⟨none, none, some 2⟩ (.stru 1) true,
    .getitem 1 (.tuple [.label 1, .int (-1)]), .imul 1 2, .pickle 1 2, .pickle 1 0, .setitem 1 9 (.pool 0) true,
-   .setLat 3 (.ofStru 0), .mul 3 (-1), .pop 1 none, .sort 1, .delslice 1 ⟨some 0, none, some 3⟩]
+   .setLat 3 (.ofStru 0), .mul 3 (-1), .pop 1 none, .sort 1, .delslice 1 ⟨some 0, none, some 3⟩,
+   .ctor (some (.stru 1)) (some .fresh), .ctor (some (.stru 1)) (some (.ofStru 0)), .mkAtom 9, .ctor (some (.list [.pool 1])) none,
+   .ctor none (some (.ofStru 1)), .append 8 (.mem 1 0) .dflt]
 
 example : Wf World.empty ∧ World.empty.Inv := ⟨World.empty_wf, empty_inv⟩
 example : HistAgree World.empty goodHistory := by decide
@@ -579,8 +646,9 @@ example : (World.empty.run goodHistory).abs = ListSpec.run World.empty.abs goodH
 /-- the history really exercises the error path and the structures are not trivial -/
 example : World.errTrace World.empty goodHistory =
     [none, none, none, none, none, none, none, none, none, none, none, none, some .value, none, none, none, none,
-     some .index, none, none, none, none, none] := by decide
-example : (World.empty.run goodHistory).abs.lists.length = 8 := by decide
+     some .index, none, none, none, none, none, none, none, none, none, none, none] := by decide
+set_option maxRecDepth 4000 in
+example : (World.empty.run goodHistory).abs.lists.length = 12 := by decide
 /-- for `no_alias_partial`: a plain slice assignment that keeps a member, a `copy=False` append of a
 free atom, an index-array selection, protocol-2 pickling -/
 def goodHistory2 : List Op :=
